@@ -394,6 +394,33 @@ func (e *Exec) zzIntrinsic(name string, args []Value) (Value, bool) {
 		y := b.Var(fmt.Sprintf("rinv!%d", e.run.havocN), SReal)
 		r.assume(e, b.Eq(b.Mul(x, y), b.RealConst(big.NewInt(1))), "")
 		return y, true
+	case "zzRToBytes":
+		// injective-by-congruence encoding of an abstract field element: n bytes = UF(real)
+		nm := e.argStr(args[0])
+		n := e.argInt(args[1])
+		e.run.stubs["UF:"+nm] = true
+		res := b.UF(fmt.Sprintf("%s_real_%d", nm, n), Sort(8*n), e.termOf(args[2]))
+		out := make([]*Term, n)
+		for i := 0; i < n; i++ {
+			out[i] = b.Extract(res, 8*i+7, 8*i)
+		}
+		return e.bytesToSlice(out), true
+	case "zzRFromBytes":
+		// abstract field element as an uninterpreted function of byte strings
+		nm := e.argStr(args[0])
+		var parts []*Term
+		for _, a := range e.variadic(args[1]) {
+			parts = append(parts, e.sliceTerms(a)...)
+		}
+		e.run.stubs["UF:"+nm] = true
+		if len(parts) == 0 {
+			return b.UF(nm+"_0_real", SReal), true
+		}
+		arg := parts[0]
+		for _, p := range parts[1:] {
+			arg = b.Concat(p, arg)
+		}
+		return b.UF(fmt.Sprintf("%s_%d_real", nm, int(arg.S)), SReal, arg), true
 	case "zzUF64":
 		// zzUF64(name, outWords, args ...[]uint64) []uint64
 		nm := e.argStr(args[0])
